@@ -134,16 +134,27 @@ def same_outcome(impl, model, scale=0.0):
 
 # ------------------------------------------------------------------------------ the SI reference (from the driver)
 class SI:
+    """the hand-written reference (PGA/Spec/SI.lean), extended by the units of the working tree the reference does not know
+    and that are consistent with their definitions (PGA/Spec/SIExt.lean): `units` = both, `ref_units` = the reference alone,
+    `verdicts` = the driver's verdict on every new unit (registration order), `new` = the accepted ones"""
+
     def __init__(self, ctx):
-        rep = ctx.model([{'op': 'c10.si_table'}])
+        rep = ctx.model([{'op': 'c10.si_table'}, {'op': 'c10.ext_table'}])
         if rep is None:
             raise common.MachineryError('the model driver is not available: no SI reference table')
         t = rep[0]
         self.units = {}
         for u in t['units']:
             self.units[u['name']] = (common.unjrat(u['value']), [common.unjrat(x) for x in u['dim']], float(common.unjrat(u['tol'])))
+        self.ref_units = dict(self.units)
         self.prefixes = {p['name']: int(p['exp']) for p in t['prefixes']}
         self.R = (common.unjrat(t['R']['value']), [common.unjrat(x) for x in t['R']['dim']], float(common.unjrat(t['R']['tol'])))
+        self.verdicts = rep[1]['new']
+        self.new = {}
+        for v in self.verdicts:
+            if v['verdict'] == 'accepted':
+                self.new[v['name']] = (common.unjrat(v['value']), [common.unjrat(x) for x in v['dim']], float(common.unjrat(v['tol'])))
+        self.units.update(self.new)
 
     def named(self, prefix, unit):
         """meaning of the name prefix+unit: the unit itself if the concatenation is a unit name"""
@@ -331,7 +342,8 @@ def all_names(si, live_prefixes=None):
 
 def importable(ctx):
     """the package builds its unit database at import by evaluating builtin.py's definitions; if that fails, every
-    expression fails: reported as a violation with the import error as the observed outcome, not as a harness failure"""
+    expression fails: reported as a violation with the failing definition as the input (the loop variables of builtin.py at
+    the point of failure) and the import error as the observed outcome, not as a harness failure"""
     try:
         import pgradd.Units  # noqa
         import pgradd.Consts  # noqa
@@ -340,7 +352,15 @@ def importable(ctx):
         import traceback
         tb = traceback.extract_tb(e.__traceback__)
         where = ['%s:%d' % (f.filename.split('pgradd/')[-1], f.lineno) for f in tb if 'pgradd' in f.filename][-3:]
-        ctx.violation('pgradd.Units cannot be imported: a built-in unit definition does not evaluate',
-                      {'import': 'pgradd.Units'}, 'the unit database is built',
+        inp = {'import': 'pgradd.Units'}
+        t = e.__traceback__
+        while t is not None:
+            if t.tb_frame.f_code.co_filename.replace('\\', '/').endswith('pgradd/Units/builtin.py'):
+                loc = t.tb_frame.f_locals
+                if isinstance(loc.get('val'), str) and isinstance(loc.get('name'), str):
+                    inp = {'import': 'pgradd.Units', 'text': loc['val'], 'unit': loc['name']}
+            t = t.tb_next
+        ctx.violation('pgradd.Units cannot be imported: a built-in unit definition does not evaluate over the units defined before it',
+                      inp, 'the unit database is built',
                       {'err': errclass(e), 'message': str(e)[:200], 'where': where})
         return False
